@@ -1,11 +1,11 @@
 import glob, hashlib, json, os, random, re, resource, shutil, subprocess, tempfile, vlib
 from concurrent.futures import ThreadPoolExecutor
 
-THEOREMS = ["Folang.Props.C16." + t for t in "driver_exit0_complete driver_failure_discipline".split()]
+THEOREMS = ["Folang.Props.C16." + t for t in "driver_exit0_complete driver_failure_discipline scan_progress nextNonSpace_none_is_panic nextNonSpace_bounds newTkz_inside tkzNext_advances".split()]
 
 ASSUMPTIONS = [
     "model: main/transpileFiles/transpileOne/OnParseError with the per-file translation and file I/O abstract (readable / translates / writable per argument); the tokenizer (scanTokenAt and all scanners, nextToken, newTkz, tkzNext) at byte level",
-    "partial: termination of the parser, of type inference (incl. the occurs check of fix 1e8a7fd) and of emission is NOT modelled: it is tied by running the real binary under a timeout and a memory limit on mutants; scan_progress (every token consumes >= 1 byte) is validated by the tok streams, its Lean proof is pending",
+    "partial: termination of the parser, of type inference (incl. the occurs check of fix 1e8a7fd) and of emission is NOT modelled: it is tied by running the real binary under a timeout and a memory limit on mutants; the tokenizer IS proved to make progress: scan_progress (every token of every scanner consumes >= 1 byte and stays inside the buffer, all byte strings), nextNonSpace_none_is_panic (the token loop never runs out of fuel: it fails only where a scanner panics), tkzNext_advances (positions strictly increase until EOF)",
     "cannot be exhibited by any model: Go stack exhaustion on deeply nested but finite input, out-of-memory, OS-level hangs",
     "checks run as root: permission bits cannot induce a write fault; a directory in place of gen_X.go (open fails) and a symlink to /dev/full (open succeeds, write fails) are used instead",
 ]
@@ -82,7 +82,7 @@ def run(ctx):
     fcdrv = ctx.build_fcdrv()
     fc = ctx.build_go("fc", srcdir=os.path.join(vlib.REPO, "fc"), out=os.path.join(vlib.BUILD, "fc"))
     ctx.assumptions += ASSUMPTIONS
-    ctx.partial += ["parser/inference/emission termination: tied by mutants under timeout, not proved", "scan_progress proof pending"]
+    ctx.partial += ["parser/inference/emission termination: tied by mutants under timeout, not proved"]
     ctx.lake_build(["Folang.Props.C16"])
     ctx.audit(THEOREMS, ["Folang.Props.C16"])
     if ctx.tier == "thorough":
